@@ -34,6 +34,8 @@ def run(tier):
     if not reg.violated:
         raise core.ToolError("regression config MC_Stream_noD14 was not rejected: design-level check is vacuous")
     cov, covstats = stream.cover_histories(pairs=(tier == "thorough"))
+    covcc, covccstats = stream.cover_histories(pairs=(tier == "thorough"), cfg="Cover_Stream_cc")
+    cov = cov + covcc
     allh = [c["h"] for c in cex] + hists + cov
     log(f"[{PID}] design level: {mc.distinct} distinct states, violated={mc.violated}; {len(hists)} enumerated + "
         f"{len(cov)} cover histories")
